@@ -870,7 +870,7 @@ def run(ctx):
     _timed(ctx, "crash", crash_stream, ctx, programs)
     _timed(ctx, "finalizers", finalizer_stream, ctx)
     _timed(ctx, "descriptor", descriptor_stream, ctx)
-    nn, nlen = (150, 25) if ctx.tier == "quick" else (1500, 40)
+    nn, nlen = (110, 25) if ctx.tier == "quick" else (1500, 40)
     ncases = native_corpus() + [dict(ops=[gen_native_op(rnd) for _ in range(rnd.randint(5, nlen))]) for _ in range(nn)]
     _timed(ctx, "native", native_stream, ctx, ncases)
     if ctx.tier == "thorough":
